@@ -29,6 +29,10 @@ pub const SEAM_FROMSTR: u8 = 36;
 pub const SEAM_DEBUG: u8 = 37;
 pub const SEAM_EQ: u8 = 38;
 pub const SEAM_SUBS: u8 = 39;
+/// the global allocator (any allocation made by a simulated thread, inside exmex, its dependencies or std)
+pub const SEAM_ALLOC: u8 = 40;
+/// Drop of a value of the seam data type
+pub const SEAM_DROP: u8 = 41;
 pub const N_SITE_IDS: usize = 48;
 
 pub fn site_name(s: u8) -> &'static str {
@@ -55,6 +59,8 @@ pub fn site_name(s: u8) -> &'static str {
         37 => "SeamDebug",
         38 => "SeamPartialEq",
         39 => "SeamSubsCallback",
+        40 => "SeamAllocator",
+        41 => "SeamDrop",
         _ => "?",
     }
 }
@@ -97,7 +103,7 @@ pub struct FaultSpec {
     pub nth: u32,
 }
 
-#[derive(Clone, Debug)]
+#[derive(Clone, Debug, Serialize, Deserialize)]
 pub enum Source {
     Policy { kind: PolicyKind, seed: u64 },
     /// follow the recorded decisions exactly; any mismatch sets `diverged`
@@ -262,6 +268,8 @@ struct Inner {
 }
 
 pub struct Sim {
+    /// 0: allocations are no scheduling points in this run; k: every k-th allocation of a thread is one
+    alloc_every: u32,
     inner: Mutex<Inner>,
     cvs: Vec<Condvar>,
     done_cv: Condvar,
@@ -270,6 +278,55 @@ pub struct Sim {
 thread_local! {
     static CUR: RefCell<Option<(Arc<Sim>, usize)>> = const { RefCell::new(None) };
     static SUSPENDED: std::cell::Cell<bool> = const { std::cell::Cell::new(false) };
+    static ALLOC_EVERY: std::cell::Cell<u32> = const { std::cell::Cell::new(0) };
+    static ALLOC_CTR: std::cell::Cell<u32> = const { std::cell::Cell::new(0) };
+    static IN_POINT: std::cell::Cell<bool> = const { std::cell::Cell::new(false) };
+}
+
+/// Called by the global allocator before every allocation. Must neither allocate nor panic.
+/// Only threads attached to a simulator whose run enabled allocator points ever get past the
+/// first check; allocations made by the scheduler itself are filtered by the reentrancy flag.
+pub static TRACE_ON: std::sync::atomic::AtomicBool = std::sync::atomic::AtomicBool::new(false);
+pub static TRACE: Mutex<Vec<(u8, u8, usize)>> = Mutex::new(Vec::new());
+thread_local! {
+    pub static LAST_ALLOC: std::cell::Cell<usize> = const { std::cell::Cell::new(0) };
+}
+
+#[inline]
+pub fn alloc_point() {
+    let every = ALLOC_EVERY.try_with(|c| c.get()).unwrap_or(0);
+    if every == 0 {
+        return;
+    }
+    if IN_POINT.try_with(|c| c.get()).unwrap_or(true) {
+        return;
+    }
+    let n = ALLOC_CTR.try_with(|c| {
+        let v = c.get().wrapping_add(1);
+        c.set(v);
+        v
+    });
+    match n {
+        Ok(v) if v % every == 0 => point(SEAM_ALLOC),
+        _ => {}
+    }
+}
+
+struct InPoint;
+impl InPoint {
+    fn enter() -> Option<InPoint> {
+        let was = IN_POINT.try_with(|c| c.replace(true)).unwrap_or(true);
+        if was {
+            None
+        } else {
+            Some(InPoint)
+        }
+    }
+}
+impl Drop for InPoint {
+    fn drop(&mut self) {
+        let _ = IN_POINT.try_with(|c| c.set(false));
+    }
 }
 
 /// Runs harness-internal code (oracle checks that format or compare values of
@@ -345,7 +402,7 @@ pub enum Done {
 }
 
 impl Sim {
-    pub fn new(n: usize, source: Source, faults: Vec<FaultSpec>, max_steps: u64) -> Arc<Sim> {
+    pub fn new(n: usize, source: Source, faults: Vec<FaultSpec>, max_steps: u64, alloc_every: u32) -> Arc<Sim> {
         let decider = match source {
             Source::Policy { kind, seed } => Decider::Policy(PolicyState::new(kind, seed, n)),
             Source::Strict(v) => Decider::Strict(v, 0),
@@ -353,6 +410,7 @@ impl Sim {
         };
         let nf = faults.len();
         Arc::new(Sim {
+            alloc_every,
             inner: Mutex::new(Inner {
                 status: vec![St::Ready; n],
                 current: None,
@@ -381,7 +439,10 @@ impl Sim {
     /// Called by a simulated thread first thing: registers the thread-local
     /// and parks until the scheduler hands over the baton.
     pub fn attach(self: &Arc<Self>, tid: usize) {
+        let _guard = InPoint::enter();
         CUR.with(|c| *c.borrow_mut() = Some((self.clone(), tid)));
+        ALLOC_CTR.with(|c| c.set(0));
+        ALLOC_EVERY.with(|c| c.set(self.alloc_every));
         let mut g = lock(&self.inner);
         while g.current != Some(tid) {
             g = self.cvs[tid].wait(g).unwrap_or_else(|e| e.into_inner());
@@ -401,6 +462,7 @@ impl Sim {
 
     /// Operation boundary: a scheduling point that also resets the per-op seam counter.
     pub fn begin_op(&self, tid: usize, op: u32, tag: u8) {
+        let _guard = InPoint::enter();
         {
             let mut g = lock(&self.inner);
             g.op_index[tid] = op;
@@ -412,6 +474,8 @@ impl Sim {
 
     /// Called by a simulated thread when it has run all its operations.
     pub fn finish(&self, tid: usize) {
+        let _guard = InPoint::enter();
+        ALLOC_EVERY.with(|c| c.set(0));
         CUR.with(|c| *c.borrow_mut() = None);
         let mut g = lock(&self.inner);
         let was_blocked = g.status[tid] == St::ExtBlocked;
@@ -454,6 +518,10 @@ impl Sim {
             }
         }
         debug_assert_eq!(g.current, Some(tid));
+        if TRACE_ON.load(std::sync::atomic::Ordering::Relaxed) {
+            let aux = if site == SEAM_ALLOC { LAST_ALLOC.with(|c| c.get()) } else { 0 };
+            TRACE.lock().unwrap().push((tid as u8, site, aux));
+        }
         g.step += 1;
         g.rep.site_hits[site as usize] += 1;
         g.digest.byte(tid as u8);
@@ -584,10 +652,15 @@ impl Sim {
 /// Scheduling point reachable from anywhere (exmex hook callback, data type
 /// seams). A no-op on threads that are not attached to a simulator.
 pub fn point(site: u8) {
-    if SUSPENDED.with(|s| s.get()) {
+    if SUSPENDED.try_with(|s| s.get()).unwrap_or(true) {
         return;
     }
-    let cur = CUR.with(|c| c.borrow().as_ref().map(|(s, t)| (s.clone(), *t)));
+    // scheduling points reached while the scheduler itself runs (its own allocations) are ignored
+    let Some(_guard) = InPoint::enter() else { return };
+    let cur = CUR
+        .try_with(|c| c.try_borrow().ok().and_then(|b| b.as_ref().map(|(s, t)| (s.clone(), *t))))
+        .ok()
+        .flatten();
     match cur {
         Some((sim, tid)) => sim.point(tid, site),
         None => crate::miri_yield(site),
